@@ -3443,6 +3443,58 @@ let network4_accepts_all s i0 i1 i2 i3 d0 d1 d2 d3 a b c d =
       (fst (stage4 s false i0 i2 i3 i1 d0 d2 d3 d1 a c d b)))
     (fst (stage4 s false i1 i2 i3 i0 d1 d2 d3 d0 b c d a))
 
+(** val swapf : (int -> int) -> int -> int -> int -> int **)
+
+let swapf p a b i =
+  if (=) i a then p b else if (=) i b then p a else p i
+
+(** val argmax_col :
+    ('a1 -> 'a1 -> bool) -> (int -> int -> 'a1) -> int -> int -> int **)
+
+let argmax_col gt a n0 j =
+  fold_left (fun mi i -> if gt (a i j) (a mi j) then i else mi)
+    (seq j (sub n0 j)) j
+
+(** val pivot_step :
+    ('a1 -> 'a1 -> bool) -> (int -> int -> 'a1) -> int -> (int -> int) -> int
+    -> int -> int **)
+
+let pivot_step gt a n0 p j =
+  let mi = argmax_col gt a n0 j in if (=) j mi then p else swapf p j mi
+
+(** val pivot_perm :
+    ('a1 -> 'a1 -> bool) -> (int -> int -> 'a1) -> int -> int -> int **)
+
+let pivot_perm gt a n0 =
+  fold_left (pivot_step gt a n0) (seq 0 n0) (fun i -> i)
+
+(** val apply_pivot :
+    int -> (int -> int -> 'a1) -> (int -> int) -> int -> int -> 'a1 **)
+
+let apply_pivot n0 a p =
+  fold_left (fun b i ->
+    if (=) (p i) i
+    then b
+    else (fun r c -> if (=) r i then a (p i) c else b r c)) (seq 0 n0) a
+
+(** val reconstruct :
+    int -> (int -> int -> 'a1) -> (int -> int) -> int -> int -> 'a1 **)
+
+let reconstruct n0 a p =
+  fold_left (fun b i ->
+    if (=) (p i) i
+    then b
+    else (fun r c -> if (=) r (p i) then a i c else b r c)) (seq 0 n0) a
+
+(** val reconstruct_colwise :
+    int -> (int -> int -> 'a1) -> (int -> int) -> int -> int -> 'a1 **)
+
+let reconstruct_colwise n0 a p =
+  fold_left (fun b i ->
+    if (=) (p i) i
+    then b
+    else (fun r c -> if (=) c (p i) then a r i else b r c)) (seq 0 n0) a
+
 (** val wrap0 : z -> z -> z **)
 
 let wrap0 w x =
@@ -4439,3 +4491,33 @@ let run_lu_solve n0 c a b =
   list_of n0 c (fun i j ->
     Obj.magic lu_solve zS n0 (mat_of n0 a) (fun r ->
       nth (add (mul r c) j) (Obj.magic b) (Obj.magic Z0)) i)
+
+(** val zabs_gt : z -> z -> bool **)
+
+let zabs_gt a b =
+  Z.ltb (Z.abs b) (Z.abs a)
+
+(** val permf : int list -> int -> int **)
+
+let permf p i =
+  nth i p 0
+
+(** val run_pivot : int -> z list -> int list **)
+
+let run_pivot n0 a =
+  map (pivot_perm zabs_gt (mat_of n0 a) n0) (seq 0 n0)
+
+(** val run_apply_pivot : int -> z list -> int list -> z list **)
+
+let run_apply_pivot n0 a p =
+  list_of n0 n0 (apply_pivot n0 (mat_of n0 a) (permf p))
+
+(** val run_reconstruct : int -> z list -> int list -> z list **)
+
+let run_reconstruct n0 a p =
+  list_of n0 n0 (reconstruct n0 (mat_of n0 a) (permf p))
+
+(** val run_reconstruct_colwise : int -> z list -> int list -> z list **)
+
+let run_reconstruct_colwise n0 a p =
+  list_of n0 n0 (reconstruct_colwise n0 (mat_of n0 a) (permf p))
